@@ -142,6 +142,11 @@ func c17Variants(valid []byte, quick bool) (out [][]c17File, labels []string) {
 	add("long-line", one([]byte(strings.Repeat("9", 200000))))
 	// megabytes of garbage without a single line break, and a multi-megabyte comment line in front of valid data
 	add("huge-garbage-without-newline", one(bytes.Repeat([]byte("garbage "), 2<<20)))
+	// over-long lines that are mostly white space: whatever the loader says about them, it says it without crashing
+	add("70000-blanks", one(bytes.Repeat([]byte(" "), 70000)))
+	add("header+70000-blanks", one(append([]byte(comment+ver+"#5"), bytes.Repeat([]byte(" "), 70000)...)))
+	add("word+70000-blanks", one(append(append([]byte(comment+ver+"#5\n0x1"), bytes.Repeat([]byte(" "), 70000)...), []byte("\n"+wj)...)))
+	add("66000-tabs-then-text", one(append(bytes.Repeat([]byte("\t"), 66000), []byte("text")...)))
 	add("huge-comment-line+valid", one(append(append([]byte("# "), bytes.Repeat([]byte("L"), 8<<20)...), append([]byte("\n"), valid...)...)))
 	// several at once
 	add("garbage+valid", one([]byte("garbage")), one(valid))
